@@ -304,6 +304,40 @@ def run_dag(case):
                 raise Violation('remove_component_other_entity',
                                 f'classes {spec}: entity 2 changed', **feats)
 
+    # the same hierarchy made of plain classes (no event handling at all):
+    # detaching exactly one object must not depend on the component being
+    # a handler
+    class PlainRoot:
+        def __repr__(self):
+            return f'<plain {type(self).__name__}>'
+
+    plain = build(spec, PlainRoot, None)
+    for mask in range(1, 1 << n):
+        for q in plain:
+            w = desper.World()
+            objs = [plain[i]() for i in range(n) if mask >> i & 1]
+            w.create_entity(*objs, entity_id=1)
+            removed = w.remove_component(1, q)
+            calls += 1
+            if not _exact_or_match(removed, objs, q, None):
+                raise Violation('remove_component_result',
+                                f'plain classes {spec}, entity owns '
+                                f'{[type(o).__name__ for o in objs]}: '
+                                f'remove_component(K{q.idx}) returned '
+                                f'{removed!r}',
+                                exact_present=any(type(o) is q for o in objs),
+                                **feats)
+            left = w.get_components(1)
+            want_left = [o for o in objs if o is not removed]
+            if sorted(map(id, left)) != sorted(map(id, want_left)):
+                raise Violation('remove_component_detaches_one',
+                                f'plain classes {spec}: after '
+                                f'remove_component(K{q.idx}) entity owns '
+                                f'{list(left)}, expected {want_left}',
+                                plain_components=True, **feats)
+    hits['plain_hierarchy'] = 1
+    del plain
+
     # processors: same DAG under desper.Processor
     class PRoot(desper.Processor):
         def process(self, dt):
@@ -376,7 +410,7 @@ def run(tier, rep):
     ]
     rep.require_hits(multiple_inheritance=1, diamond=1, mro_rejected=1,
                      replacement=1, virtual_base_queried=1,
-                     queries_from_on_remove=1)
+                     queries_from_on_remove=1, plain_hierarchy=1)
     kernel.enumerate_cases(run_dag, cases(tier), rep, 'class-dags', chunk=8,
                            params=dict(all_base_orders_up_to=4 if tier == 'quick' else 5,
                                        canonical_base_order_up_to=5 if tier == 'quick' else 6))
